@@ -119,10 +119,14 @@ fn msg_alphabet(thorough: bool) -> Vec<Msg> {
         AnnKind::RefsNamingLocal,
         AnnKind::RefsUnseededRepo,
     ];
-    for announcer in 0..3u8 {
+    for announcer in 0..5u8 {
         for kind in kinds {
             for ts in ts_all {
                 for forged in [false, true] {
+                    // announcements of the mid-dial / disconnected peers: plain variants only
+                    if announcer >= 3 && (forged || !matches!(ts, T::Now | T::One)) {
+                        continue;
+                    }
                     if !thorough {
                         // quick: forged only with the plain timestamp; the local announcer only with Now
                         if forged && ts != T::Now {
@@ -167,6 +171,8 @@ impl Sys {
         svc::connect_inbound(&mut s, &peers[0]);
         s.received_message(peers[0].id, Message::Announcement(peers[0].node_ann(svc::T0_MS - 19)));
         s.received_message(peers[0].id, Message::Subscribe(Subscribe::all()));
+        // The mid-dial peer is a known node (its node announcement was relayed to us).
+        s.received_message(peers[0].id, Message::Announcement(peers[1].node_ann(svc::T0_MS - 18)));
         // att: the operator asked to connect; the dial was attempted but no handshake yet.
         s.command(Command::Connect(peers[1].id, peers[1].addr.clone(), radicle::node::ConnectOptions::default()));
         s.attempted(peers[1].id, peers[1].addr.clone());
@@ -209,7 +215,10 @@ impl Sys {
                 let (nid, signer) = match announcer {
                     0 => (self.peers[sender].id, &self.peers[sender].signer),
                     1 => (self.x.id, &self.x.signer),
-                    _ => (*self.local.public_key(), &self.local),
+                    2 => (*self.local.public_key(), &self.local),
+                    // relayed announcements of peers whose session is mid-dial / disconnected
+                    3 => (self.peers[1].id, &self.peers[1].signer),
+                    _ => (self.peers[2].id, &self.peers[2].signer),
                 };
                 let t = self.ts(*ts);
                 let message = match kind {
